@@ -19,7 +19,7 @@ the same asset WITHOUT freq on the window made of the coarse steps, with the pri
 coarse step: same form (one / two variables per step), bounds of a fine step = bounds of its coarse step times
 dt_fine/dt_coarse, and for random coarse points z: same value and the same dispatch at every node and FINE step for the
 expanded point x_t = z_i * dt_t/dt_i.  Where the hypotheses of the theorem fail the violation carries the kind of the
-recorded finding (`coarse_wacc` F-13h, `coarse_varying_limits` F-13i).
+recorded finding (`coarse_wacc` F-13h, `coarse_varying_limits` F-13i, `coarse_varying_extra_costs` notes/findings_coarsebuild.md).
 """
 import copy
 import os
@@ -43,6 +43,21 @@ KINDS = {'coarse_contract': 'SimpleContract', 'coarse_transport': 'Transport'}
 
 M = 'EAO.Properties.C13Builders'
 THEOREMS_C13_BUILDERS = [
+    (M, 'EAO.C13B.coarse_equiv_contract', 'SimpleContract with freq on a well-formed coarse grid, equal discount factors and constant capacities / extra costs inside every coarse step: the coarse problem and the fine problem (same asset without freq on the minor steps, price series averaged per coarse step) have the same form (1 or 2 variable blocks); every coarse point z expands (fine step t of coarse step i gets z_i*dt_t/dt_i) to a point with the same rate inside every coarse step that is feasible iff z is, costs the same and gives the same dispatch at every asset, node and FINE step; every fine point with equal rates is such an expansion'),
+    (M, 'EAO.C13B.coarse_equiv_transport', 'the same for Transport with freq (two mapping rows per variable, factors -1 and efficiency); the fine problem is shown to exist whenever the coarse one is built'),
+    (M, 'EAO.C13B.coarse_equiv_contract_grid', 'from the grid up: top-level reference grid, cuts of whole coarse steps [s,e), scalar capacities and extra costs: the fine problem lives on ref.restrict s e and the only hypothesis about the data is equal discounting inside the coarse steps'),
+    (M, 'EAO.C13B.coarsen_wellFormed', 'what Grid.coarsen makes of a top-level grid (indices 0..T-1, positive step lengths, increasing points) along non-decreasing cuts satisfies everything the builders use: per-step lists of equal length, distinct indices, every coarse step as long as its (existing, positive) minor steps together'),
+    (M, 'EAO.C13B.equalDiscount_of_const', 'the discount factor of a coarse step is the reference factor at one of its minor steps, so equal factors inside every coarse step of the reference grid (e.g. wacc 0) give the hypothesis EqualDiscount'),
+    (M, 'EAO.C13B.constInside_scalar', 'scalar min_cap, max_cap and extra_costs are constant inside every coarse step (hypothesis ConstInside)'),
+    (M, 'EAO.C13B.minorGrid_eq_restrict', 'whole coarse steps: when first cut = window start and last cut = window end, the minor steps of the coarse grid with the reference data ARE the fine restricted grid of the window'),
+    (M, 'EAO.C13B.builder_is_core', 'buildSimpleContract (freq=None model) is the constructor check, the sampled price vector and then simpleCore: the tail the coarse builder and the fine comparison problem share'),
+    (M, 'EAO.C13B.transport_builder_is_core', 'the same for buildTransport and transportCore'),
+    (M, 'EAO.C13B.coarse_weights_sum_one_builder', 'in the mapping a coarse SimpleContract returns, the factors of all rows of one variable (one per minor step) add up to 1'),
+    (M, 'EAO.C13B.coarse_weights_sum_transport', 'for a coarse Transport they add up to -1 + efficiency (both nodes)'),
+    (M, 'EAO.C13B.coarse_rate_constant', 'every mapping row of a coarse SimpleContract sits on a minor step of its coarse step i with factor dt_fine/dt_coarse: dispatch at the fine step = x*dt_fine/dt_coarse, rate = x/dt_coarse at every minor step'),
+    (M, 'EAO.C13B.coarse_rate_constant_transport', 'the same for a coarse Transport with the node factor -1 or efficiency'),
+    (M, 'EAO.C13B.Ex.unequal_discount_witness', 'machine-checked instance of finding F-13h: discount factors 1, 1/2 inside a coarse step, coarse point (2,0) costs 2, its expansion costs 3/2 in the fine problem; EqualDiscount fails'),
+    (M, 'EAO.C13B.Ex.varying_limits_witness', 'machine-checked instance of finding F-13i: capacity series 3,1,3,1: coarse limit 6, the expansion of z=(6,0) puts 3 on a fine step whose limit is 1; ConstInside fails'),
 ]
 
 ERR_MAP = ct.ERR_MAP
@@ -505,11 +520,14 @@ def oracle(case, impl_result, rnd=None):
             fI = [int(i) for i in fasset.timegrid.restricted.I]
             fdf = [float(v) for v in fasset.timegrid.restricted.discount_factors]
             # hypotheses, evaluated on the inputs
-            consts = True
+            consts = caps_const = True
             if case['kind'] == 'coarse_contract':
                 for k in ('min_cap', 'max_cap', 'extra_costs'):
                     v = fasset.make_vector(getattr(fasset, k), prices, default_value=0 if k == 'extra_costs' else None)
-                    consts = consts and _const_inside([float(z) for z in v], cells, first)
+                    ok_k = _const_inside([float(z) for z in v], cells, first)
+                    consts = consts and ok_k
+                    if k != 'extra_costs':
+                        caps_const = caps_const and ok_k
     except Exception as e:
         return [], ['oracle:fine-error-' + err_class(e)]
     if fI != flat:
@@ -517,7 +535,7 @@ def oracle(case, impl_result, rnd=None):
     fp = problem_json(fop, name=fasset.name, nodes=[n.name for n in fasset.nodes])
     cp = impl_result['problem']
     df_ok = _const_inside(fdf, cells, first)
-    kind = None if (df_ok and consts) else ('coarse_wacc' if not df_ok else 'coarse_varying_limits')
+    kind = None if (df_ok and consts) else ('coarse_wacc' if not df_ok else ('coarse_varying_limits' if not caps_const else 'coarse_varying_extra_costs'))
     feats = ['oracle:judged', 'oracle:hyp-' + ('ok' if kind is None else kind)]
     facts = {'kind': kind, 'asset_type': case['spec']['type'], 'freq': case['spec']['args']['freq']}
     exact = kind is None and is_exact(case, request(case, impl_result))
@@ -614,7 +632,13 @@ def run_case(case, drv, rnd=None):
     if r.get('error') in ('NonExistentTimeError', 'AmbiguousTimeError') or r.get('coarse_error') in ('NonExistentTimeError', 'AmbiguousTimeError'):
         rec['features'].append('pandas-tz-error')      # pandas refuses a wall-clock time of the input: not modelled
         return rec
-    req = request(case, r)
+    try:
+        req = request(case, r)
+    except Exception as e:
+        if type(e).__name__ in ('NonExistentTimeError', 'AmbiguousTimeError'):
+            rec['features'].append('pandas-tz-error')  # a date of the input (or an implicit end derived from it) is no valid wall-clock time
+            return rec
+        raise
     mres = drv.ask(req)
     rec['disagreements'] = compare(case, r, mres, req)
     rec['exact'] = is_exact(case, req) and 'problem' in r
@@ -654,7 +678,8 @@ class ScratchDriver:
             self.p.kill()
 
 
-KNOWN_KINDS = {'coarse_wacc': 'F-13h', 'coarse_varying_limits': 'F-13i'}
+KNOWN_KINDS = {'coarse_wacc': 'F-13h', 'coarse_varying_limits': 'F-13i',
+               'coarse_varying_extra_costs': 'notes/findings_coarsebuild.md #1 (same nature as F-13i, for extra_costs)'}
 
 
 def selftest(n, seed, drv, verbose=False):
